@@ -5,16 +5,17 @@
    Besides replaying the component model the driver evaluates, per session, the property monitor and the plain
    statements on the projected trace and cross-checks them against the theorems' predictions for the repaired
    variant (MODELBUG if the extracted code disagrees with what is proved). *)
-(* variants: v<s><o><l><p> = fix_sent, fix_order, fix_l2stop, fix_prune on top of the first three repairs;
-   "head" = v1011 = /repo HEAD; "repaired" = v1111; "defective" = the code as first found *)
+(* variants: v<s><o><l><p><g> = fix_sent, fix_order, fix_l2stop, fix_prune, fix_ghost on top of the first three repairs;
+   "head" = v10110 = /repo HEAD; "repaired" = v11111; "defective" = the code as first found *)
 let variant_of name =
-  let mk s o l p = { fix_counters = true; fix_stop = true; fix_active = true; fix_sent = s; fix_order = o; fix_l2stop = l; fix_prune = p } in
+  let mk s o l p g = { fix_counters = true; fix_stop = true; fix_active = true; fix_sent = s; fix_order = o; fix_l2stop = l;
+                       fix_prune = p; fix_ghost = g } in
   match name with
-  | "repaired" | "" -> mk true true true true
-  | "head" -> mk true false true true
+  | "repaired" | "" -> mk true true true true true
+  | "head" -> mk true false true true false
   | "defective" -> { fix_counters = false; fix_stop = false; fix_active = false; fix_sent = false; fix_order = false;
-                     fix_l2stop = false; fix_prune = false }
-  | s when String.length s = 5 && s.[0] = 'v' -> mk (s.[1] = '1') (s.[2] = '1') (s.[3] = '1') (s.[4] = '1')
+                     fix_l2stop = false; fix_prune = false; fix_ghost = false }
+  | s when String.length s = 6 && s.[0] = 'v' -> mk (s.[1] = '1') (s.[2] = '1') (s.[3] = '1') (s.[4] = '1') (s.[5] = '1')
   | s -> failwith ("unknown variant " ^ s)
 
 let c4_of a b c d = { rxb = n_of_decimal a; txb = n_of_decimal b; rxp = n_of_decimal c; txp = n_of_decimal d }
@@ -81,6 +82,9 @@ let run_case v line =
     let any_held_int = ref false in
     let pending_resp = Array.make k [] in   (* per session: outcomes (ok?) of the Interims still unanswered, oldest first *)
     let flight_valid = Array.make k false in  (* the unanswered Interim's session object is still the cached one *)
+    let detached = Array.make k false in      (* ... or it was released meanwhile: the response acts on the detached object *)
+    let ghosted = Array.make k false in
+    let detached_seen = Array.make k false in  (* printed letter G: a late response was delivered for a released session *)       (* excuse G: a late response re-created the checkpoint of a released session *)
     let racy = ref false in
     let nops = List.length ops in
     let step_one ev =
@@ -138,13 +142,15 @@ let run_case v line =
         let ev = match String.split_on_char ',' op with
           | "A" :: i :: rest -> ann (fun j x h -> GActive (j, x, h)) i rest
           | "R" :: i :: rest -> ann (fun j x h -> GRestored (j, x, h)) i rest
-          | ["X"; i; sn] -> if uint i >= k then raise Bad; flight_valid.(uint i) <- false;
+          | ["X"; i; sn] -> if uint i >= k then raise Bad;
+            if flight_valid.(uint i) then detached.(uint i) <- true;
+            flight_valid.(uint i) <- false;
             GReleased (nat_of_int (uint i), parse_snap sn)
           | ["T"; b; m; sn] ->
             (* while responses are held every Interim of this tick is "sent, no response yet" *)
             GTick (bucket_of b, (if !hold_int then nat_list_of_mask ((1 lsl k) - 1) 0 k else nat_list_of_mask (uint m) 0 k),
                    parse_snap sn)
-          | ["B"] -> Array.fill flight_valid 0 k false; GRestart
+          | ["B"] -> Array.fill flight_valid 0 k false; Array.fill detached 0 k false; GRestart
           | ["P"; p] -> GPrune (p = "1")
           | ["H"; _] | ["U"] -> GPrune false       (* placeholder, handled below *)
           | _ -> raise Bad in
@@ -167,6 +173,12 @@ let run_case v line =
               pending_resp.(j) <- [];
               let rt = List.map (fun ok ->
                   if ok && flight_valid.(j) then ignore (step_one (GAck (nat_of_int j)));
+                  if detached.(j) then begin
+                    detached_seen.(j) <- true;
+                    ignore (step_one (GLate (nat_of_int j, ok)));
+                    if not v.fix_ghost then ghosted.(j) <- true;
+                    detached.(j) <- false
+                  end;
                   Printf.sprintf "%s%d" (if ok then "K" else "F") j) rs in
               flight_valid.(j) <- false;
               List.map (show_out j) l @ rt) ss) in
@@ -205,21 +217,24 @@ let run_case v line =
         let fp_or_np = v.fix_prune || np in
         (* cross-check of the extracted code against the theorems (variants with fix_sent) *)
         let bug = t' <> t ||
-                  (v.fix_sent && not wraps &&
+                  (v.fix_sent && not wraps && (v.fix_ghost || no_late evs) &&
                    (not (accepted true v.fix_prune t) || not stp || (fp_or_np && not (ibrk && isnt && iord)) || (np && not imono))) in
         (* Every verdict bit that is 0 must have a stated excuse, else the line is marked UNEXCUSED and cannot match:
              W  a uint64 cumulative wrapped (excuses mono, snt)
              P  the accounting was dropped by an orphan prune and the variant sends no Stop for it (fixed in 7faf7f9: never at HEAD)
              D  a Start of the session was held back and the variant does not order its calls (known finding)
-           stp is never excused. *)
-        let exc_p = pruned.(j) && not v.fix_prune and exc_d = delayed.(j) && not v.fix_order in
-        let any = exc_p || exc_d in
-        let unexcused = (not brk && not any) || not stp || (not mono && not (wraps || any))
+             G  a late Accounting-Response re-created the checkpoint of a released session (known finding; the only
+                excuse for stp: the ghost entry gets a second Stop) *)
+        let exc_p = pruned.(j) && not v.fix_prune and exc_d = delayed.(j) && not v.fix_order
+        and exc_g = ghosted.(j) in   (* only set for variants without fix_ghost *)
+        let any = exc_p || exc_d || exc_g in
+        let unexcused = (not brk && not any) || (not stp && not exc_g) || (not mono && not (wraps || any))
                         || (not snt && not (wraps || any)) || (not ord && not any) in
-        Printf.sprintf "v%d=%s%s%s%s%s%s%s%s%s" j (b brk) (b stp) (b mono) (b snt) (b ord)
+        Printf.sprintf "v%d=%s%s%s%s%s%s%s%s%s%s" j (b brk) (b stp) (b mono) (b snt) (b ord)
           (if pruned.(j) then "P" else "") (if delayed.(j) then "D" else "")
+          (if detached_seen.(j) then "G" else "")
           (if unexcused then "UNEXCUSED" else "") (if bug then "MODELBUG" else "")) ss in
-    (String.concat " " groups ^ " ; " ^ (if !racy then "racy" else if !any_held_int then "held" else String.concat " " dump) ^ " ; " ^ String.concat " " verdicts,
+    (String.concat " " groups ^ " ; " ^ (if !racy then "racy" else if Array.exists (fun l -> l <> []) pending_resp then "held" else String.concat " " dump) ^ " ; " ^ String.concat " " verdicts,
      wrapped_at)
   | _ -> raise Bad
 
